@@ -27,7 +27,8 @@ def run_case(case, chooser):
     pool = case["pool"]
     n = case["n"]
     problems = []
-    rig = Rig(chooser=chooser, n_sessions=n, tree={"f": b"abc"},
+    host = case.get("host", "127.0.0.1")
+    rig = Rig(chooser=chooser, n_sessions=n, tree={"f": b"abc"}, host=host,
               server_kwargs={"data_ports": list(pool), "wait_future_timeout": 1})
     try:
         w = rig.world
@@ -98,14 +99,14 @@ def run_case(case, chooser):
             probes = []
             for k in range(len(pool) + 1):
                 from vf.world import Session
-                s = Session(w, name=f"probe{k}")
+                s = Session(w, name=f"probe{k}", host=host)
                 probes.append(s)
                 s.connect()
                 s.login()
-                r = s.passive("PASV")
+                r = s.passive("PASV" if ":" not in host else "EPSV")
                 code = r[-1][0] if r else None
                 if k < len(pool):
-                    if code != "227" or s.pasv_port not in pool or s.pasv_port in got:
+                    if code not in ("227", "229") or s.pasv_port not in pool or s.pasv_port in got:
                         problems.append({"kind": "probe-port-missing", "k": k, "code": code, "port": s.pasv_port,
                                          "got": got})
                     got.append(s.pasv_port)
@@ -210,6 +211,11 @@ def build_items(tier):
     for psize in (0, 3):
         for seq in _seqs(2, ["PASV", "EPSV", "QUIT", "@drop"], 2):
             items.append(("seq", {"name": f"seq-p{psize}", "pool": PORTS[:psize], "n": 2, "events": seq}, 0, [], None))
+    # the same on an IPv6 control connection (PASV is answered 503 there, EPSV works)
+    for psize in (1, 2):
+        for seq in _seqs(2, ["PASV", "EPSV", "@data", "LIST", "QUIT", "@drop"], depth - 1):
+            items.append(("seq", {"name": f"seq6-p{psize}", "pool": PORTS[:psize], "n": 2, "events": seq, "host": "::1"},
+                          0, [], None))
     # family C: three sessions on two ports
     for seq in _seqs(3, ["PASV", "QUIT", "@drop"], 3):
         items.append(("seq", {"name": "seq3-p2", "pool": PORTS[:2], "n": 3, "events": seq}, 0, [], None))
@@ -218,6 +224,9 @@ def build_items(tier):
     for name, n, psize, events, ef in RACES:
         case = {"name": name, "pool": PORTS[:psize], "n": n, "events": events, "explore_from": ef}
         items.append(("race", case, bound, kinds_q if tier == "quick" else kinds_t, 4000 if tier == "quick" else 60000))
+        if name in ("pasv-then-drop", "pasv-pasv-drop", "pasv-epsv-pipelined", "pasv-then-quit", "two-sessions-race-one-port"):
+            case6 = dict(case, name=name + "-ipv6", host="::1")
+            items.append(("race", case6, bound, kinds_q if tier == "quick" else kinds_t, 4000 if tier == "quick" else 60000))
     # bind fault plans: every assignment of {ok, EADDRINUSE, EACCES} to the first two attempts per port
     outcomes = ["ok", errno.EADDRINUSE, errno.EACCES]
     fault_scripts = [
@@ -243,7 +252,7 @@ def run(tier, seed, t0):
         items = items[k:] + items[:k]
     parts = report.pmap(_work, items)
     part = report.merge_all(parts)
-    bounds = {"pools": [0, 1, 2, 3], "sessions": "1..3", "sequence_depth": 3 if tier == "quick" else 4,
+    bounds = {"pools": [0, 1, 2, 3], "sessions": "1..3", "control_connection": ["IPv4", "IPv6 (::1)"], "sequence_depth": 3 if tier == "quick" else 4,
               "deviation_bound_races": 1 if tier == "quick" else 2,
               "bind_plans": "3^(2*|pool|) for |pool| in {1,2}", "cases": len(items)}
     return report.finish(
